@@ -33,7 +33,7 @@ theorem sessInner_id (cfg : Config) (ss : Session) (c : Nat) (r : Request) :
     · unfold doAnnounce; repeat' split
       all_goals rfl
     · unfold doSetup; repeat' split
-      all_goals first | rfl | (unfold setupMedia; dsimp only; repeat' split
+      all_goals first | rfl | (unfold setupMedia; repeat' split
                                all_goals rfl)
     · unfold doPlay; repeat' split
       all_goals rfl
